@@ -11,11 +11,13 @@ class SharedDictDataset(CachedDataset):
         self.shared_dict = manager.dict()
 
     def _cached_getitem(self, idx):
-        if idx not in self.shared_dict:
+        # lookup with a single access to the shared dict ("idx in dict" followed by "dict[idx]" are two roundtrips
+        # to the manager -> another process can clear the dict in between)
+        try:
+            sample = self.shared_dict[idx]
+        except KeyError:
             sample = self.dataset[idx]
             self.shared_dict[idx] = sample
-        else:
-            sample = self.shared_dict[idx]
         return sample
 
     def dispose(self):
